@@ -672,6 +672,11 @@ func (f *OrefaFile) WriteAt(b []byte, off int64) (n int, err error) {
 		return 0, &fs.PathError{Op: "writeat", Path: f.name, Err: avfs.ErrNegativeOffset}
 	}
 
+	if len(b) == 0 {
+		// nothing to write: the file is not extended to off.
+		return 0, nil
+	}
+
 	f.mu.RLock()
 	defer f.mu.RUnlock()
 
